@@ -69,6 +69,7 @@ def run(ctx):
     ctx.rule("C04.R16", "Mutable hands the in-place filters a private container for every interaction, on every path (a cached / in-memory source's own rows are never written)")
     c11.mutable_private_containers(ctx, "C04.R16")
     r17_aliased_state(ctx, fam)
+    r18_params_collected_not_changed(ctx)
 
 
 DRAWS = {"choice", "choicew", "random", "randoms", "randint", "randints", "shuffle", "gauss", "gausses"}
@@ -1325,6 +1326,37 @@ def r17_aliased_state(ctx, fam, rule="C04.R17"):
     ctx.ob(rule, PF, "", None, f"alias-mutation scan of {len(classes)} source/filter classes ({n} sites)", True, stmt="alias scan", trivial=True, line=1)
 
 
+def r18_params_collected_not_changed(ctx, rule="C04.R18"):
+    """'reports the same params every time ... never modifies any object the caller passed in': Params, SupervisedSimulation and IdentitySource hand out the very dict they hold;
+    resolve_params merges what the pipes report and must leave each reported mapping alone."""
+    ctx.rule(rule, "pipes.utilities.resolve_params only reads the mappings it collects: no item store / deletion / pop / update on a name bound to a pipe's params or to an element of the collected list")
+    PU = "coba/pipes/utilities.py"
+    fn = ctx.fn(PU, "resolve_params")
+    holders = set()      # names holding one reported mapping
+    lists = set()
+    for st in ast.walk(fn):
+        if isinstance(st, ast.Assign) and len(st.targets) == 1 and isinstance(st.targets[0], ast.Name):
+            if isinstance(st.value, ast.Attribute) and st.value.attr == "params":
+                holders.add(st.targets[0].id)
+            if isinstance(st.value, (ast.List, ast.ListComp)):
+                lists.add(st.targets[0].id)
+    for st in ast.walk(fn):
+        if isinstance(st, ast.Call) and isinstance(st.func, ast.Attribute) and st.func.attr == "append" and isinstance(st.func.value, ast.Name) and st.args \
+                and isinstance(st.args[0], ast.Attribute) and st.args[0].attr == "params":
+            lists.add(st.func.value.id)
+    for x in ast.walk(fn):
+        gens = [(x.target, x.iter)] if isinstance(x, ast.For) else [(g.target, g.iter) for g in x.generators] if isinstance(x, (ast.ListComp, ast.DictComp, ast.SetComp, ast.GeneratorExp)) else []
+        for t, it in gens:
+            if isinstance(it, ast.Name) and it.id in lists and isinstance(t, ast.Name):
+                holders.add(t.id)
+    MUT = {"pop", "popitem", "update", "setdefault", "clear"}
+    bad = [x for x in ast.walk(fn) if (isinstance(x, (ast.Assign, ast.AugAssign, ast.Delete)) and any(isinstance(t, ast.Subscript) and isinstance(t.value, ast.Name) and t.value.id in holders
+                                                                                                     for t in (x.targets if not isinstance(x, ast.AugAssign) else [x.target])))
+           or (isinstance(x, ast.Call) and isinstance(x.func, ast.Attribute) and x.func.attr in MUT and isinstance(x.func.value, ast.Name) and x.func.value.id in holders)]
+    ctx.ob(rule, PU, "resolve_params", (bad or [fn])[0], "the reported mappings are merged into a new mapping and left as they are", bool(holders) and not bad,
+           detail={"mapping names": sorted(holders), "writes": [unparse(b)[:60] for b in bad]}, stmt="resolve_params reads only")
+
+
 def _drop_methods(tree, cname, members):
     from ..mutate import find_def
     cls = find_def(tree, cname)
@@ -1346,6 +1378,7 @@ CONTROLS = [
     ("Cache pickles the iterator of an unfinished read", "coba/pipes/filters.py", lambda tree: _drop_methods(tree, "Cache", ("__getstate__",)), "C04.R15"),
     ("a copied Cache keeps the partly filled buffer of an unfinished read", "coba/pipes/filters.py", M.replace_stmt("Cache.__getstate__", M.text_has("state['_iter'], state['_cache'] = (None, None)"), "if state['_iter'] is not None: state['_iter'] = None"), "C04.R6"),
     ("the neighbourhoods of a synthetic simulation are laid out once", "coba/environments/synthetics.py", M.insert_before("NeighborsSyntheticSimulation.read", lambda st: isinstance(st, ast.If) and "n_action_feats == 0" in ast.unparse(st.test), "worlds = getattr(self, 'worlds', None)"), "C04.R2"),
+    ("resolve_params renames conflicting keys inside the reported mappings", "coba/pipes/utilities.py", M.insert_before("resolve_params", lambda st: isinstance(st, ast.Return), "for p in params:\n    for key in [k for k in p.keys() if counts[k] > 1]:\n        p[key + '1'] = p.pop(key)"), "C04.R18"),
     ("Densify without pickling hooks", "coba/environments/filters.py", lambda tree: _drop_methods(tree, "Densify", ("__getstate__", "__setstate__")), "C04.R15"),
     ("rewards pickle as unchecked repr text", "coba/primitives.py", M.chain(M.replace_expr("DiscreteReward.__getstate__", "_as_literal((self._state, self._default))", "repr((self._state, self._default))"),
         M.replace_expr("DiscreteReward.__setstate__", "_of_literal(args)", "literal_eval(args)")), "C04.R14"),
